@@ -156,6 +156,8 @@ func runC07(env *Env, s Scenario) {
 	if env.Res.HarnessError != "" {
 		return
 	}
+	env.K.PairCover = true
+	env.K.PairStart = map[string]bool{"chan.close.begin": true, "nc.close.done": true}
 	rd := sc.readDelay()
 	settle := 20*rd + 20*time.Millisecond
 	// injected descheduling (at most 3 holds per run) must be over before leaks are looked for
@@ -176,6 +178,7 @@ func runC07(env *Env, s Scenario) {
 	}
 	env.Fault("close-"+sc.F.CloseMode, 1)
 	env.Fault("sched-hold", env.K.Holds)
+	env.Res.Pairs = env.K.OrderedPairs()
 	if out.Hang {
 		site := hangSite(sr)
 		env.Fail("hang", site, "workload did not finish before the fake deadline %v: %s never returned\n%s", sc.Deadline(), site, out.HangDump)
